@@ -8,6 +8,7 @@ import json
 import multiprocessing as mp
 import os
 import signal
+import time
 
 from .. import loops, term, tlc
 
@@ -58,7 +59,19 @@ def _session(cfg):
             pass
 
     env.on_wait = drain
-    ad = loops.ADAPTERS[cfg["loop"]](env)
+    legacy = bool(cfg.get("legacy"))
+    if legacy:
+        # a screen WITHOUT external event-loop support: MainLoop runs its own loop around screen.get_input() in real time;
+        # the event loop object only stores the alarms, so no clock double applies (delays are a few hundredths of a second)
+        class _LegacyAd:
+            def make(self):
+                return urwid.SelectEventLoop()
+
+            def close(self):
+                pass
+        ad = _LegacyAd()
+    else:
+        ad = loops.ADAPTERS[cfg["loop"]](env)
     fault = cfg.get("fault")
     counts = {k: 0 for k in CALLBACKS}
     injected = [None]
@@ -80,24 +93,30 @@ def _session(cfg):
     def keyname(k):
         return k if isinstance(k, str) else " ".join(str(x) for x in k)
 
+    shared = {"gen": 0}     # generation of the application state, shown by whichever probe is the topmost widget
+
     class Probe(urwid.Widget):
         _sizing = frozenset(["box"])
         _selectable = True
-        gen = 0
+
+        def __init__(self, wid):
+            super().__init__()
+            self.wid = wid
 
         def bump(self):
-            self.gen += 1
-            self._invalidate()
+            shared["gen"] += 1
+            for p_ in shared.get("probes", (self,)):     # whichever probe is displayed shows the new generation
+                p_._invalidate()
 
         def render(self, size, focus=False):
             maybe_raise("render")
             cols, rows = size
-            t = f"g{self.gen}".ljust(cols)[:cols].encode()
+            t = f"g{shared['gen']}".ljust(cols)[:cols].encode()
             return urwid.TextCanvas([t] + [b" " * cols] * (rows - 1), maxcol=cols)
 
         def keypress(self, size, key):
             handled = key == "a" and not hits("keypress")
-            env.log(t="keypress", key=keyname(key), handled=handled)
+            env.log(t="keypress", key=keyname(key), handled=handled, w=self.wid)
             maybe_raise("keypress")
             if handled:
                 self.bump()
@@ -106,13 +125,24 @@ def _session(cfg):
 
         def mouse_event(self, size, event, button, col, row, focus):
             handled = button == 1 and not hits("mouse_event")
-            env.log(t="mouse_event", key=keyname((event, button, col, row)), handled=handled)
+            env.log(t="mouse_event", key=keyname((event, button, col, row)), handled=handled, w=self.wid)
             maybe_raise("mouse_event")
             if handled:
                 self.bump()
             return handled
 
-    probe = Probe()
+    probe = Probe(1)
+    probe2 = Probe(2)
+    shared["probes"] = (probe, probe2)
+    swapped = [False]
+
+    def maybe_swap(kind):
+        """The application replaces the topmost widget (loop.widget = other view) from a callback, once."""
+        if cfg.get("swap") == kind and not swapped[0]:
+            swapped[0] = True
+            shared["gen"] += 1
+            env.log(t="swap", w=2)
+            ml.widget = probe2
 
     def input_filter(keys, raw_codes):
         outk = [k for k in keys if k != "x"]
@@ -123,6 +153,7 @@ def _session(cfg):
     def unhandled(key):
         env.log(t="unhandled", key=keyname(key))
         maybe_raise("unhandled")
+        maybe_swap("unhandled")
         return False
 
     before_sig = {s: signal.getsignal(s) for s in (signal.SIGWINCH, signal.SIGTSTP, signal.SIGCONT)}
@@ -133,7 +164,14 @@ def _session(cfg):
         evl = ad.make()
         fin = os.fdopen(slave, "r", closefd=False)
         fout = os.fdopen(os.dup(slave), "w")
-        screen = raw.Screen(input=fin, output=fout)
+        screen_cls = raw.Screen
+        if legacy:
+            class LegacyScreen(raw.Screen):
+                @property
+                def hook_event_loop(self):      # hasattr(screen, "hook_event_loop") is False: MainLoop falls back to its own loop
+                    raise AttributeError("hook_event_loop")
+            screen_cls = LegacyScreen
+        screen = screen_cls(input=fin, output=fout, bracketed_paste_mode=bool(cfg.get("paste")), focus_reporting=bool(cfg.get("focusrep")))
         env.realfds[slave] = 1
         env.realfds[screen._resize_pipe_rd.fileno()] = 2
         orig_draw = screen.draw_screen
@@ -147,7 +185,7 @@ def _session(cfg):
 
         screen.draw_screen = draw_screen
         ml = urwid.MainLoop(probe, [], screen, handle_mouse=cfg.get("mouse", True), input_filter=input_filter,
-                            unhandled_input=unhandled, event_loop=evl, pop_ups=cfg.get("pop_ups", False))
+                            unhandled_input=unhandled, event_loop=None if legacy else evl, pop_ups=cfg.get("pop_ups", False))
 
         def alarm_cb(loop, data):
             if hasattr(ad, "sync"):
@@ -155,6 +193,7 @@ def _session(cfg):
             env.log(t="alarm")
             maybe_raise("alarm")
             probe.bump()
+            maybe_swap("alarm")
 
         def pipe_cb(data):
             env.log(t="pipe")
@@ -168,6 +207,16 @@ def _session(cfg):
             env.realfds[ml._watch_pipes[pipe_w][1]] = 3
         cur = [W, H]
         for ms, kind in cfg["events"]:
+            if legacy and kind in ("pipe", "resize"):
+                continue
+            if legacy and kind != "alarm":       # input typed at a real time: written to the terminal from an alarm
+                data, names, _ = INPUTS[kind]
+
+                def typed(loop, d, data=data, names=names):
+                    env.log(t="arrive", keys=names)
+                    os.write(master, data)
+                ml.set_alarm_in(ms / 1000.0, typed)
+                continue
             if kind == "alarm":
                 ml.set_alarm_in(ms / 1000.0, alarm_cb)
             elif kind == "pipe":
@@ -210,11 +259,9 @@ def _session(cfg):
     except BaseException as ex:  # noqa: BLE001  # harness failure
         return {"error": f"{type(ex).__name__}: {ex}"}
     env.log(**outcome)
+    # what has reached the terminal by the time run() is over (nothing is flushed on the screen's behalf)
     drain()
-    try:
-        fout.flush()
-    except Exception:  # noqa: BLE001
-        pass
+    time.sleep(0.01)
     drain()
     toks = [t for t in term.tokenize(out.decode("utf-8", "replace")) if t["t"] != "unknown"]
     unknown = [t for t in term.tokenize(out.decode("utf-8", "replace")) if t["t"] == "unknown"]
@@ -288,7 +335,8 @@ def random_cfg(rng, loop):
     fault = None
     if rng.random() < 0.75:
         fault = (rng.choice(CALLBACKS), rng.randint(1, 3), rng.choice(["exit", "error", "error", "base"]))
-    return {"loop": loop, "events": events, "fault": fault, "pop_ups": rng.random() < 0.3, "mouse": rng.random() < 0.8}
+    return {"loop": loop, "events": events, "fault": fault, "pop_ups": rng.random() < 0.3, "mouse": rng.random() < 0.8,
+            "paste": rng.random() < 0.4, "focusrep": rng.random() < 0.4, "swap": rng.choice([None, None, "alarm", "unhandled"])}
 
 
 def cfg_from_behaviour(b, loop):
@@ -303,7 +351,7 @@ def cfg_from_behaviour(b, loop):
 def sig_of(tr, l):
     e = tr["ev"][l - 1]
     cfg = tr["cfg"]
-    return {"loop": cfg["loop"], "event": e["t"], "fault_kind": cfg["fault"][0] if cfg["fault"] else "none",
+    return {"loop": cfg["loop"], "legacy_screen": bool(cfg.get("legacy")), "event": e["t"], "fault_kind": cfg["fault"][0] if cfg["fault"] else "none",
             "fault_exc": cfg["fault"][2] if cfg["fault"] else "none", "outcome": e.get("outcome", ""), "exc": e.get("exc", "")}
 
 
@@ -361,6 +409,16 @@ def run(chk):
     n_rand = 100 if quick else 3000
     for i in range(n_rand):
         cfgs.append(random_cfg(rng, LOOPS[i % len(LOOPS)]))
+    # screens without external event-loop support (MainLoop's own loop around screen.get_input, real time, short delays)
+    n_legacy = 40 if quick else 600
+    for i in range(n_legacy):
+        c = random_cfg(rng, "select")
+        c["legacy"] = True
+        c["events"] = [(ms, k) for ms, k in c["events"] if k not in ("pipe", "resize")] or [(10, "keyU")]
+        if c["fault"] and c["fault"][0] == "pipe":
+            c["fault"] = ("unhandled", 1, c["fault"][2])
+        cfgs.append(c)
+    chk.cov["legacy_screen_sessions"] = n_legacy
     results = run_sessions(cfgs)
     traces = []
     errors = [r for r in results if r is None or "error" in r]
